@@ -467,21 +467,33 @@ def qualifying_spreads(ctx, node):
     tname = get_named_type(node.expect).name
     rt_names = {p.name: i for i, p in enumerate(node.poss or [])}
     found = []
-    todo = [(e[1].selection_set, None) for e in node.entries if e[1].selection_set is not None]
+    # (selection set, variant scope, declared type the selection set is evaluated for)
+    todo = [(e[1].selection_set, None, tname) for e in node.entries if e[1].selection_set is not None]
     seen = set()
+    single_object = len(rt_names) == 1 and tname in rt_names
     while todo:
-        ss, vi = todo.pop()
+        ss, vi, ctype = todo.pop()
         for sel in ss.selections:
+            if any(d.name.value in ("skip", "include") for d in sel.directives or ()):
+                continue
+            if isinstance(sel, InlineFragmentNode):
+                # a selection set under `... on TC` is evaluated for TC: spreads of fragments on exactly TC qualify there
+                tc = sel.type_condition.name.value if sel.type_condition else ctype
+                if tc == ctype:
+                    todo.append((sel.selection_set, vi, ctype))
+                elif single_object or vi is not None:
+                    todo.append((sel.selection_set, vi, tc))  # a supertype condition on a position whose runtime type is fixed
+                elif ctype == tname and tc in rt_names and len(rt_names) > 1:
+                    todo.append((sel.selection_set, rt_names[tc], tc))
+                continue
             if isinstance(sel, FragmentSpreadNode):
-                if any(d.name.value in ("skip", "include") for d in sel.directives or ()):
-                    continue
                 fd = ctx.frags[sel.name.value]
                 tc = fd.type_condition.name.value
-                if tc == tname:
+                if tc == ctype:
                     v2 = vi
-                elif vi is None and tc in rt_names and len(rt_names) > 1:
+                elif ctype == tname and vi is None and tc in rt_names and len(rt_names) > 1:
                     v2 = rt_names[tc]
-                elif vi is not None and tc == node.poss[vi].name:
+                elif ctype == tname and vi is not None and tc == node.poss[vi].name:
                     v2 = vi
                 else:
                     continue
@@ -490,7 +502,7 @@ def qualifying_spreads(ctx, node):
                 if (sel.name.value, v2) not in seen:
                     seen.add((sel.name.value, v2))
                     found.append((sel.name.value, v2))
-                    todo.append((fd.selection_set, v2))
+                    todo.append((fd.selection_set, v2, tc))
     return found
 
 
